@@ -100,6 +100,11 @@ def t_step(tf):
                 if ok:
                     window_ok(h, gens[0][1][1], arr, ops.arith('-', ops.arith('+', i, 1), cnt), ops.arith('+', i, 1), 'step')
                     h.prove(gens[0][1][0] == tf and adds[0][1][0] is gens[0][1][3], 'step.generated-candle-is-what-gets-stored')
+                    # a fill inside the closing minute publishes partial candles of the window; the completed candle must be
+                    # the last thing stored for it, i.e. stored after the minute has been matched
+                    names = [e[0] if e[0] != 'add_candle' else ('add.' + str(e[1][3])) for e in S.events]
+                    h.prove('match' in names and names.index('match') < names.index('add.' + tf),
+                            'step.completed-candle-is-stored-after-the-minute-has-been-matched', {'events': names})
                     lo = ops.arith('-', ops.arith('+', i, 1), cnt)
                     h.prove(ops.land(ops.compare('>=', lo, 0), ops.equal(ops.arith('%', lo, cnt), 0)), 'step.window-start-is-aligned')
             else:
@@ -191,12 +196,23 @@ def t_fast(tf, step):
         i = h.int('i', 0)
         h.assume(ops.equal(ops.arith('%', i, step), 0))
         h.assume(ops.compare('<=', ops.arith('+', i, step), S.N))
-        h.ctx.cfg.overrides[f'{BM}._get_fixed_jumped_candle'] = lambda it, a, k: a[1]
+        fixes = []
+        h.ctx.cfg.overrides[f'{BM}._get_fixed_jumped_candle'] = lambda it, a, k: (fixes.append(tuple(a)), a[1])[1]
         h.cover('fast.pre')
         out = h.outcome(f'{BM}._simulate_new_candles', S.candles, i, step)
         h.prove(out.ok, 'fast.no-exception', {'raised': out.exc})
         if not out.ok:
             return
+        # every chunk but the first starts with the minute normalised to the previous close - whatever the registry holds (the
+        # liquidation check and the orders a hook submits during the chunk look at that minute, too)
+        if h.branch(ops.compare('>', i, 0)):
+            okf = len(fixes) == 1
+            h.prove(okf, 'fast.first-minute-of-a-later-chunk-is-normalised-to-the-previous-close-whatever-orders-rest', {'calls': len(fixes)})
+            if okf:
+                h.prove(ops.land(same(h, fixes[0][0], arr.fn(ops.arith('-', i, 1))), same(h, fixes[0][1], arr.fn(i))),
+                        'fast.the-normalisation-gets-the-previous-minute-and-the-first-minute-of-the-chunk')
+        else:
+            h.prove(len(fixes) == 0, 'fast.first-chunk-is-not-normalised')
         gens = [e for e in S.events if e[0] == 'generate']
         adds = [e for e in S.events if e[0] == 'add_candle' and e[1][3] == tf]
         chunks = [e for e in S.events if e[0] == 'match_chunk']
